@@ -47,23 +47,32 @@ func VerifC16MigrateNetmap() {
 	// notary = 8 (era 0): a history that was EXTENDED from 2 to 4 snapshots at ring index 0 and not refilled yet
 	// (updateSnapshotCount exists since 0.15.1): the older map was moved to the tail slot 3, slots 1 and 2 are
 	// missing, so the ring has a hole in the middle that the conversion must step over
-	count, prevSlot := 2, byte(1)
+	count, prevSlot, curSlot := 2, byte(1), byte(0)
 	if notary == 8 {
 		count, prevSlot = 4, 3
+		vAssume(current == 0)
+	}
+	if notary == 9 { // a LONG history: 200 snapshots kept, the current one in slot 129, the previous in slot 128 —
+		// slot numbers whose integer encoding takes two bytes on NeoVM; the keys are "snapshot_" + ONE byte
+		count, curSlot, prevSlot = 200, 129, 128
 		vAssume(current == 0)
 	}
 	vPreset("netmap", []byte(snapshotCountKey), count)
 	vPreset("netmap", []byte(snapshotEpoch), epoch)
 	vPreset("netmap", []byte(snapshotBlockKey), 5)
-	vPreset("netmap", []byte(snapshotCurrentIDKey), current)
+	if notary == 9 {
+		vPreset("netmap", []byte(snapshotCurrentIDKey), 129)
+	} else {
+		vPreset("netmap", []byte(snapshotCurrentIDKey), current)
+	}
 	if era == 0 {
-		vPreset("netmap", append([]byte(snapshotKeyPrefix), 0), vSerialize([]oldNode{{BLOB: blobA}, {BLOB: blobC}}))
+		vPreset("netmap", append([]byte(snapshotKeyPrefix), curSlot), vSerialize([]oldNode{{BLOB: blobA}, {BLOB: blobC}}))
 		vPreset("netmap", append([]byte(snapshotKeyPrefix), prevSlot), vSerialize([]oldNode{{BLOB: blobB}}))
 		vPreset("netmap", append(append([]byte{}, candidatePrefix...), vKey("nA")...), vSerialize(oldCandidate{f1: oldNode{BLOB: blobA}, f2: nodestate.Type(stA)}))
 		vPreset("netmap", append(append([]byte{}, candidatePrefix...), vKey("nB")...), vSerialize(oldCandidate{f1: oldNode{BLOB: blobB}, f2: nodestate.Type(stB)}))
 	} else {
-		vPreset("netmap", append([]byte(snapshotKeyPrefix), 0), vSerialize([]Node{{BLOB: blobA, State: 1}, {BLOB: blobC, State: 1}}))
-		vPreset("netmap", append([]byte(snapshotKeyPrefix), 1), vSerialize([]Node{{BLOB: blobB, State: 1}}))
+		vPreset("netmap", append([]byte(snapshotKeyPrefix), curSlot), vSerialize([]Node{{BLOB: blobA, State: 1}, {BLOB: blobC, State: 1}}))
+		vPreset("netmap", append([]byte(snapshotKeyPrefix), prevSlot), vSerialize([]Node{{BLOB: blobB, State: 1}}))
 		vPreset("netmap", append(append([]byte{}, candidatePrefix...), vKey("nA")...), vSerialize(Node{BLOB: blobA, State: nodestate.Type(stA)}))
 		vPreset("netmap", append(append([]byte{}, candidatePrefix...), vKey("nB")...), vSerialize(Node{BLOB: blobB, State: nodestate.Type(stB)}))
 	}
@@ -73,7 +82,7 @@ func VerifC16MigrateNetmap() {
 	pending := false
 	if era <= 1 {
 		switch notary {
-		case 1, 8:
+		case 1, 8, 9:
 			vPreset("netmap", []byte("notary"), false)
 		case 2:
 			vPreset("netmap", []byte("notary"), true)
